@@ -235,7 +235,7 @@ impl DecodeBuffer {
             dict_content: Vec::new(),
             window_size,
             total_output_counter: 0,
-            
+            #[cfg(feature = "hash")]
             hash: twox_hash::XxHash64::with_seed(0),
         }
     }
@@ -248,7 +248,7 @@ impl DecodeBuffer {
         self.buffer.reserve(self.window_size);
         self.dict_content.clear();
         self.total_output_counter = 0;
-        ();
+        #[cfg(feature = "hash")]
         {
             self.hash = twox_hash::XxHash64::with_seed(0);
         }
